@@ -121,7 +121,14 @@ Section GoEqual.
         if equate_empty o && is_empty l1 && is_empty l2 then Ok true
         else if (n1 && is_empty l1) || (n2 && is_empty l2)
              then Ok ((n1 && is_empty l1) && (n2 && is_empty l2))   (* a nil operand *)
-             else if Nat.eqb (vlen l1) (vlen l2) then go_equal_elems l1 l2 else Ok false
+             else if Nat.eqb (vlen l1) (vlen l2) then go_equal_elems l1 l2
+                  else (* different lengths: the answer is false, but the edit-script search
+                          still compares elements, starting with the first pair; a panic
+                          there propagates (only the first pair is modelled) *)
+                       match l1, l2 with
+                       | VCons a _, VCons b _ => both (go_equal a b) (Ok false)
+                       | _, _ => Ok false
+                       end
     | _, _ => Ok false
     end
   (** struct fields, every field name exported (tuples, union cases) *)
